@@ -24,7 +24,10 @@ LEVEL_TEXT = ("Proof: for the modelled StatesClassification::compute every state
               "numbers agree; for every operator accepted by checkSymmetry (model incl. the flags extracted from the source) "
               "the operator is diagonal in the Fock basis with the quantum number as eigenvalue, H has no matrix element "
               "between states with different quantum numbers, and c+_i, c_i, c+_i c_j shift it by a constant, hence map a "
-              "block into at most one block; the analysis (default, ignored, custom) returns without error for every lattice. "
+              "block into at most one block; the analysis (default, ignored, custom) returns without error for every lattice; the "
+              "floating-point identification of quantum numbers that agree within the tolerance (fix b9c0110) is modelled "
+              "(snap/snapAll) and proved to replace every value by a close raw value, never to separate equal values and to group "
+              "exactly the close ones when closeness is an equivalence on the occurring values. "
               "Tie: exact replay of accepted sets, blocks, addresses and block matrices; brute-force single-target oracle.")
 LEVEL_NOTE = "Trusted: Lean kernel, translator flags (length test, additivity test, S_z guard), hash injectivity."
 TECHNIQUE = "Lean 4 proof (partition invariant + CAR-representation semantics of accepted integrals) + exact differential replay and brute-force block-map oracle"
